@@ -565,8 +565,13 @@ Definition prevalidate_table (c : client) (tr : str * list wreq) : list errclass
       then [] else [Validation]
   end.
 
+Definition forced_blocks (c : client) : bool :=
+  match c_failure c with Some FDeprecated => true | _ => false end.
+
 Definition batch_write_core (c : client) (reqs : fmap (list wreq)) : client * obs :=
   let all := flat_map snd reqs in
+  (* a failure that does not turn requests into unprocessed ones fails the call, whatever the batch holds *)
+  if forced_blocks c then (c, err_obs ForcedFailure) else
   (* under an emulated failure the shape of the batch is not looked at (fix 142a901) *)
   if (match c_failure c with Some _ => false | None => true end) && negb (forallb wreq_ok all) then (c, err_obs Validation)
   else if (match c_failure c with Some _ => false | None => true end) && Nat.ltb batch_limit (List.length all) then (c, err_obs Validation)
